@@ -14,7 +14,7 @@ import subprocess
 import sys
 import os
 
-REPLAY_TIMEOUT_S = 120
+REPLAY_TIMEOUT_S = 900
 
 
 def _main() -> int:
@@ -22,6 +22,14 @@ def _main() -> int:
     out = {'ok': None, 'exc': None}
     try:
         mod = importlib.import_module(modname)
+        if len(sys.argv) > 3:      # history replay: first re-run the earlier native invocations of the process
+            with open(sys.argv[3], encoding='utf-8') as fh:
+                hist = json.load(fh)
+            for hmod, hname, hargs in hist['calls']:
+                try:
+                    getattr(importlib.import_module(hmod), hname)(*hargs)
+                except Exception:  # pylint: disable=broad-except
+                    pass
         res = eval(call, dict(mod.__dict__))  # pylint: disable=eval-used
         out['ok'] = bool(res)
         if isinstance(res, tuple):  # (ok, info)
@@ -35,14 +43,16 @@ def _main() -> int:
     return 0
 
 
-def run_replay(modname: str, call: str, env_extra=None) -> dict:
-    """Replay in a fresh interpreter. Returns {'ok':..., 'exc':...}; ok None = replay itself broke."""
+def run_replay(modname: str, call: str, env_extra=None, history: str = None) -> dict:
+    """Replay in a fresh interpreter. Returns {'ok':..., 'exc':...}; ok None = replay itself broke.
+    With `history` (a file written by the CrossHair worker) the earlier native harness invocations of
+    that worker process are re-executed first: a violation that needs state leaked by earlier calls."""
     env = dict(os.environ)
     env['PYTHONPATH'] = os.path.dirname(os.path.dirname(os.path.abspath(__file__)))
     if env_extra:
         env.update(env_extra)
     try:
-        proc = subprocess.run([sys.executable, '-m', 'vf.replay', modname, call],
+        proc = subprocess.run([sys.executable, '-m', 'vf.replay', modname, call] + ([history] if history else []),
                               capture_output=True, text=True, timeout=REPLAY_TIMEOUT_S, env=env,
                               check=False)
     except subprocess.TimeoutExpired:
